@@ -5,11 +5,13 @@ from harness import cfg, common
 from harness.common import Result
 
 SCALARS = {'NumCPUs': [1, 2, 8, 16, 0], 'CookieAuthentication': [True, False], 'Nickname': ['alice', 'bob', 'carol x', 'dave'],
-           'ContactInfo': ['me <a@b>', 'x=y', 'q"r'], 'MaxCircuitDirtiness': [600, 10, 99],
+           'ContactInfo': ['me <a@b>', 'x=y', 'q"r', 'back\\slash', 'a\\"b', '\\\\'], 'MaxCircuitDirtiness': [600, 10, 99],
            'AvoidDiskWrites': [True, False], 'ClientUseIPv6': [-1, 0, 1], 'BandwidthRate': [1024, 65536, 1073741824],
-           'PathBiasNoticeRate': [0.5, 0.25, 0.7, 1.0], 'DataDirectory': ['/var/lib/tor', '/tmp/t or'], 'KeepalivePeriod': [300, 60],
+           'PathBiasNoticeRate': [0.5, 0.25, 0.7, 1.0], 'DataDirectory': ['/var/lib/tor', '/tmp/t or', 'C:\\Users\\tor', '\\\\host\\share\\tor dir'], 'KeepalivePeriod': [300, 60],
            'OwningControllerFD': [-1, 7]}
 LIST_ITEMS = ['notice stdout', 'debug file /x y', '9050', '9050 IsolateDestAddr', 'unix:/s', 'reject *:25', 'accept *:*', 'a', '']
+# values with backslashes and quotes (Tor reports them raw in GETCONF / CONF_CHANGED; SETCONF has to escape them)
+LIST_ITEMS_ESC = ['notice file \\\\host\\share\\x.log', 'info file C:\\tor\\"my log".txt']
 COMMA_ITEMS = ['21', '22', '80', 'relayA', '{us}', '$ABCD', '10.0.0.0/8']
 # the pool the C11 tables are drawn from
 POOL = [('SocksPort', 'PortLines'), ('DNSPort', 'PortLines'), ('Log', 'LineList'), ('ExitPolicy', 'LineList'),
@@ -20,7 +22,9 @@ POOL = [('SocksPort', 'PortLines'), ('DNSPort', 'PortLines'), ('Log', 'LineList'
 
 
 def items_for(tab, n):
-    return COMMA_ITEMS if n in tab.commas else LIST_ITEMS[:8]
+    if n in tab.commas:
+        return COMMA_ITEMS
+    return LIST_ITEMS[:8] + (LIST_ITEMS_ESC if n in ('Log',) else [])
 
 
 def tor_values(tab, n, items):
@@ -119,10 +123,20 @@ def gen_ops(rng, store, defaults, *, n_ops, conf_events, aliasing, options=None,
         elif r < 0.30:
             n = rng.choice(lists)
             v = [rng.choice(items_for(tab, n)) for _ in range(rng.randint(0 if rng.random() < 0.3 else 1, 3))]
+            src = None
+            others = [m for m in lists if m != n and (m in tab.commas) == (n in tab.commas) and m not in pending_assigned]
+            if others and rng.random() < 0.3:
+                # cfg.n = cfg.src — the value is the tracked list of another option (later edits of either must stay apart)
+                src = rng.choice(others)
+                cur = getattr(im.cfg, src)
+                if isinstance(cur, list) and all(isinstance(x, str) for x in cur):
+                    v = [str(x) for x in cur]
+                else:
+                    src = None
             if inflight and (v == last_assigned.get(n) or v == [str(x) for x in getattr(im.cfg, n)]):
                 continue
             last_assigned[n] = list(v)
-            do(['assign', spell(n), v])
+            do(['assign', spell(n), v] + ([src] if src else []))
             pending_assigned.add(n)
         elif r < 0.58:
             n = rng.choice(lists)
